@@ -8,6 +8,7 @@ Model: Rs1090/Model/Decode/*.lean (`Message.tryFrom`), tied to the Rust decoder 
 import Rs1090.Model.Decode.Message
 import Rs1090.Proofs.Decode.Message
 import Rs1090.Proofs.Decode.Checksum
+import Rs1090.Gen.Render
 namespace Rs1090.Props.C01
 open Rs1090 Rs1090.Model Rs1090.Model.Message
 
@@ -96,6 +97,16 @@ theorem decode_ne_panic (bs : List Nat) (h : ∀ b ∈ bs, b < 256) : (tryFrom b
       | err e => rfl
       | panic x => rw [hd] at hb; simp [Outcome.isPanic] at hb
       | ok v => simp only []; split <;> rfl
+
+/-- **Rendering** (partial — a syntactic obligation, not a semantic model): none of the 39
+    `impl fmt::Display` / hand-written `impl fmt::Debug` blocks of the decoder contains an indexing or
+    slicing expression, `unwrap`/`expect`, integer arithmetic, a shift, a narrowing cast or a panicking
+    macro (list regenerated from the source on every run by gen/extractors/render.py).  Code that only
+    matches, compares and `write!`s cannot panic; that rendering an accepted message does not panic is in
+    addition checked on every accepted frame by the harness oracle (`format!("{m}")`, `{m:?}`, `{m:#?}`). -/
+theorem render_sites_empty : Gen.Render.riskySites = [] := by decide
+
+theorem render_impls_scanned : 30 ≤ Gen.Render.renderImpls := by decide
 
 /-- determinism: the model is a function (stated for completeness; for the Rust code the harness
     decodes every input twice and compares both the value and its JSON) -/
